@@ -275,6 +275,8 @@ namespace via
           {
             pointer->close();
             pointer->error_callback_(error, ptr);
+            // Note: ensure that the owner of the connection releases it
+            pointer->event_callback_(DISCONNECTED, ptr);
           }
         }
       }
